@@ -283,9 +283,13 @@ def _run(case, out, rig, axolotl):
             cls = rec.load()
             args = [S.unjson_val(a) for a in op[2]]
             # ids are left to the library (the property is about its process-wide counter)
-            kwargs = {k: S.unjson_val(v) for k, v in op[3].items() if k not in ("_id", "id")}
+            kwargs = {k: S.unjson_val(v) for k, v in op[3].items() if k not in ("_id", "id", "_cbs")}
             ent = cls(*args, **kwargs)
             idx = len(issued)
+            # which callbacks the application registers with the request: both, only one of them, or none
+            cbs = op[3].get("_cbs", "both")
+            if cbs != "both":
+                out.label("callbacks_registered=" + cbs)
             n_bottom = len(rig.bottom.sent)
             app_ids.add(ent.getId())
             sync = op[4] if len(op) > 4 else None
@@ -301,14 +305,14 @@ def _run(case, out, rig, axolotl):
                         sync_exc.append(e)
                 rig.bottom.on_send = answer_now
             n_got = len(app.got)
-            app._sendIq(ent, ok_cb(idx), err_cb(idx))
+            app._sendIq(ent, ok_cb(idx) if cbs in ("both", "ok") else None, err_cb(idx) if cbs in ("both", "err") else None)
             rig.bottom.on_send = None
             new = rig.bottom.sent[n_bottom:]
             if len(new) != 1 or new[0]["id"] != ent.getId():
                 out.fail("request", "request:%s:not_transmitted_once" % op[1], {"step": step, "n": len(new)})
                 return out
             app_ids.add(ent.getId())
-            issued.append({"id": ent.getId(), "kind": op[1], "entity": ent, "state": "outstanding", "last_reply": None})
+            issued.append({"id": ent.getId(), "kind": op[1], "entity": ent, "state": "outstanding", "last_reply": None, "cbs": cbs})
             out.label("req:" + op[1].replace("ProtocolEntity", ""))
             if sync:
                 op_target[0] = idx
@@ -318,7 +322,8 @@ def _run(case, out, rig, axolotl):
                     out.fail("callbacks", "iq_reply:%s:reply_inside_send:%s:raises:%s" % (op[1], sync, type(sync_exc[0]).__name__),
                              {"step": step, "error": repr(sync_exc[0])[:300]})
                     return out
-                expected_log.append(("success" if sync == "result" else "error", idx))
+                if cbs == "both" or cbs == ("ok" if sync == "result" else "err"):
+                    expected_log.append(("success" if sync == "result" else "error", idx))
                 issued[-1]["state"] = "answered"
                 issued[-1]["last_reply"] = sync_tree
                 if len(app.got) != n_got:
@@ -335,7 +340,9 @@ def _run(case, out, rig, axolotl):
             mode = op[2]
             tree = set_id(G.materialize(op[3]), r["id"])
             if r["state"] == "outstanding":
-                expected_log.append(("success" if mode == "result" else "error", i))
+                if r.get("cbs", "both") == "both" or r.get("cbs") == ("ok" if mode == "result" else "err"):
+                    # (a reply for which no callback of its kind was registered is consumed without any callback)
+                    expected_log.append(("success" if mode == "result" else "error", i))
                 r["state"] = "answered"
                 r["last_reply"] = tree
                 earlier = [j for j, q in enumerate(issued) if q["state"] == "outstanding" and j < i]
@@ -541,6 +548,8 @@ def script_strategy():
             choice = draw(st.integers(0, 14)) if kinds_issued else 0
             if choice <= 3 or not kinds_issued:
                 op = draw(req)
+                if draw(st.integers(0, 3)) == 0:
+                    op = [op[0], op[1], op[2], dict(op[3], _cbs=draw(st.sampled_from(["ok", "err", "none"])))]
                 kinds_issued.append(op[1])
                 if draw(st.integers(0, 4)) == 0:
                     mode = draw(st.sampled_from(["result", "result", "error"]))
